@@ -138,6 +138,9 @@ class ExpandedTraceback:
         frames = traceback.extract_tb(exc_info[2])
         student_frames = [frame for frame in frames if frame[0] in show_filenames]
         self.line_number = (student_frames or frames)[-1][1]
+        # A syntax error found while compiling has no frame in the student's file
+        if isinstance(exception, SyntaxError) and not student_frames and exception.lineno is not None:
+            self.line_number = exception.lineno
         self.original_code_lines = original_code_lines
         self.student_files = student_files
 
